@@ -18,6 +18,15 @@ package main
 // use.  No destination occurs twice among the destinations of one writer (what "exactly once" means
 // for a destination passed twice is not something the statement settles).
 //
+// Caller-owned argument slices (round 6): "every destination" of a writer is what the writer was BUILT with.  The
+// caller may hold the arguments in a []io.Writer variable of its own, pass it as MultiLevelWriter(s...), and go on
+// using that variable: overwrite an element (the next tenant's file, nil), append to it, reslice it, truncate and
+// refill it, build the next writer from it.  None of that changes the destinations of a writer already built.  In a
+// history these are the steps slice-make / slice-set / slice-append / slice-reslice (performed on real Go slices) and
+// a "build" whose writer has built_from_caller_slice = k > 0: writers[i] = zerolog.MultiLevelWriter(s_k...), its
+// args being the contents of s_k at that step.  A destination that was only ever put into a slice AFTER the builds
+// (a trap) belongs to no writer and must never be called.
+//
 // Monitor (monitorDerivStep, on the calls of the separately recorded destinations): an event logged
 // through writer j reaches exactly the destinations writer j was built from (those its filters let
 // it through to), once each, and no other destination of the derivation.  Each logging step is then
@@ -35,21 +44,40 @@ import (
 	. "verifharness/hlib"
 )
 
+// dargT.Guard: the (wrapped) writer is handed over behind a harness LevelWriter (depthGuard) that forwards Write /
+// WriteLevel unchanged and panics (recovered by the harness, shown as a panic in the trace) when it is entered while
+// already inside a call of its own.  Set where a
+// writer is put into the very slice variable it, or a writer among its arguments, was built from: should a writer
+// come to contain itself, the logging call ends in a recorded panic instead of a stack overflow of the harness.
 type dargT struct {
 	Node  int     `json:"writer"`      // >= 0: the result of that earlier MultiLevelWriter call; -1: a destination
 	Leaf  int     `json:"destination"` // when writer == -1
 	Wraps []wrapT `json:"wraps"`       // around this argument, outermost first (sync | filtered); writers only
+	Guard bool    `json:"behind_depth_guard,omitempty"`
 }
 
 type dnodeT struct {
-	Args []dargT `json:"args"`
+	Args  []dargT `json:"args"`
+	Slice int     `json:"built_from_caller_slice,omitempty"` // k > 0: MultiLevelWriter(s_k...), args = the contents of the caller's slice s_k at the build step; 0: arguments in a slice of their own that nobody touches afterwards
+}
+
+// sliceOpT: one statement of the caller on one of its own []io.Writer variables (s_1, s_2, ...)
+type sliceOpT struct {
+	Slice int     `json:"slice"`
+	Index int     `json:"index"`           // slice-set
+	Lo    int     `json:"lo"`              // slice-reslice
+	Hi    int     `json:"hi"`              // slice-reslice
+	Cap   int     `json:"cap"`             // slice-make
+	Items []dargT `json:"items,omitempty"` // slice-make, slice-append; slice-set: one item, none = the nil io.Writer
+	Go    string  `json:"go"`              // the statement as Go source
 }
 
 type dopT struct {
-	Op   string   `json:"op"` // build | log
-	Node int      `json:"writer"`
-	Evs  []evT    `json:"events,omitempty"`
-	Om   [][]outT `json:"outcomes,omitempty"` // [event][destination of the derivation]
+	Op   string    `json:"op"` // build | log | slice-make | slice-set | slice-append | slice-reslice
+	Node int       `json:"writer"`
+	Evs  []evT     `json:"events,omitempty"`
+	Om   [][]outT  `json:"outcomes,omitempty"` // [event][destination of the derivation]
+	S    *sliceOpT `json:"caller_slice_statement,omitempty"`
 }
 
 type derivT struct {
@@ -117,19 +145,54 @@ func runDeriv(d *derivT) [][][]actT {
 	loggers := make([]zerolog.Logger, len(d.Nodes))
 	defer installReports(rt, d.Handler)()
 	out := make([][][]actT, len(d.Ops))
+	depth := 0
+	resolve := func(a dargT) io.Writer {
+		if a.Node >= 0 {
+			w := wrapChain(a.Wraps, writers[a.Node], false, -1, nil)
+			if a.Guard {
+				// outside the wrappers: a SyncWriter entered twice would stop the harness for good
+				w = &depthGuard{w: w.(zerolog.LevelWriter), depth: &depth}
+			}
+			return w
+		}
+		return leaves[a.Leaf]
+	}
+	slices := map[int][]io.Writer{} // the caller's own slice variables
 	for s := range d.Ops {
 		op := &d.Ops[s]
 		switch op.Op {
-		case "build":
-			var args []io.Writer
-			for _, a := range d.Nodes[op.Node].Args {
-				if a.Node >= 0 {
-					args = append(args, wrapChain(a.Wraps, writers[a.Node], false, -1, nil))
-				} else {
-					args = append(args, leaves[a.Leaf])
-				}
+		case "slice-make":
+			sl := make([]io.Writer, 0, op.S.Cap)
+			for _, a := range op.S.Items {
+				sl = append(sl, resolve(a))
 			}
-			writers[op.Node] = zerolog.MultiLevelWriter(args...)
+			slices[op.S.Slice] = sl
+		case "slice-set":
+			if len(op.S.Items) == 0 {
+				slices[op.S.Slice][op.S.Index] = nil
+			} else {
+				slices[op.S.Slice][op.S.Index] = resolve(op.S.Items[0])
+			}
+		case "slice-append":
+			for _, a := range op.S.Items {
+				slices[op.S.Slice] = append(slices[op.S.Slice], resolve(a))
+			}
+		case "slice-reslice":
+			slices[op.S.Slice] = slices[op.S.Slice][op.S.Lo:op.S.Hi]
+		case "build":
+			if k := d.Nodes[op.Node].Slice; k > 0 {
+				if len(slices[k]) != len(d.Nodes[op.Node].Args) {
+					panic(fmt.Sprintf("c14 derivation: caller slice %d has %d elements at the build of writer %d, the generator recorded %d", k, len(slices[k]), op.Node, len(d.Nodes[op.Node].Args)))
+				}
+				// the caller passes its own slice and keeps using it afterwards
+				writers[op.Node] = zerolog.MultiLevelWriter(slices[k]...)
+			} else {
+				var args []io.Writer
+				for _, a := range d.Nodes[op.Node].Args {
+					args = append(args, resolve(a))
+				}
+				writers[op.Node] = zerolog.MultiLevelWriter(args...)
+			}
 			loggers[op.Node] = zerolog.New(writers[op.Node]).Level(zerolog.Level(-128))
 		case "log":
 			for i := range op.Evs {
@@ -465,4 +528,405 @@ func imin(a, b int) int {
 		return a
 	}
 	return b
+}
+
+// ---------------------------------------------------------------- caller-owned argument slices
+
+// depthGuard forwards to w; it panics when it is entered while a call through it is still in progress (the element it
+// stands for has come to contain itself: with writers that only ever contain writers built before them that cannot
+// happen) and, as a second line of defence, once guarded calls are nested 50 deep (see dargT.Guard).
+type depthGuard struct {
+	w      zerolog.LevelWriter
+	depth  *int
+	active bool
+}
+
+const depthGuardLimit = 50
+
+func (g *depthGuard) enter() {
+	if g.active || *g.depth >= depthGuardLimit {
+		panic("c14 harness: a writer is written to from inside its own write: it contains itself")
+	}
+	g.active = true
+	*g.depth++
+}
+
+func (g *depthGuard) leave() {
+	g.active = false
+	*g.depth--
+}
+
+func (g *depthGuard) Write(p []byte) (int, error) {
+	g.enter()
+	defer g.leave()
+	return g.w.Write(p)
+}
+
+func (g *depthGuard) WriteLevel(l zerolog.Level, p []byte) (int, error) {
+	g.enter()
+	defer g.leave()
+	return g.w.WriteLevel(l, p)
+}
+
+// fromSlice: was writer `node`, or a writer among its arguments (transitively), built from caller slice id?
+func (d *derivT) fromSlice(node, id int) bool {
+	if d.Nodes[node].Slice == id {
+		return true
+	}
+	for _, a := range d.Nodes[node].Args {
+		if a.Node >= 0 && d.fromSlice(a.Node, id) {
+			return true
+		}
+	}
+	return false
+}
+
+// guarded marks the items that are writers built (transitively) from this very slice variable.
+func (s *sliceSim) guarded(items []dargT) []dargT {
+	out := append([]dargT{}, items...)
+	for i := range out {
+		if out[i].Node >= 0 && s.d.fromSlice(out[i].Node, s.id) {
+			out[i].Guard = true
+		}
+	}
+	return out
+}
+
+// sliceSim: one []io.Writer variable of the caller, as the generator sees it (its visible contents; nil pointer =
+// the nil io.Writer).  Every method appends the statement to the history; the driver performs it on a real slice.
+type sliceSim struct {
+	d       *derivT
+	id      int
+	content []*dargT
+}
+
+func (a dargT) goText() string {
+	t := fmt.Sprintf("destination[%d]", a.Leaf)
+	if a.Node >= 0 {
+		t = fmt.Sprintf("writers[%d]", a.Node)
+		for i := len(a.Wraps) - 1; i >= 0; i-- {
+			t = a.Wraps[i].Kind + "(" + t + ")"
+		}
+		if a.Guard {
+			t = "depthGuard(" + t + ")"
+		}
+	}
+	return t
+}
+
+func goTexts(items []dargT) string {
+	t := ""
+	for i, a := range items {
+		if i > 0 {
+			t += ", "
+		}
+		t += a.goText()
+	}
+	return t
+}
+
+func (d *derivT) newSlice(capacity int, items ...dargT) *sliceSim {
+	id := 1
+	for _, op := range d.Ops {
+		if op.Op == "slice-make" && op.S.Slice >= id {
+			id = op.S.Slice + 1
+		}
+	}
+	if capacity < len(items) {
+		capacity = len(items)
+	}
+	s := &sliceSim{d: d, id: id}
+	for i := range items {
+		s.content = append(s.content, &items[i])
+	}
+	d.Ops = append(d.Ops, dopT{Op: "slice-make", Node: -1, S: &sliceOpT{Slice: id, Cap: capacity, Items: append([]dargT{}, items...),
+		Go: fmt.Sprintf("s_%d := append(make([]io.Writer, 0, %d), %s)", id, capacity, goTexts(items))}})
+	return s
+}
+
+func (s *sliceSim) set(i int, a dargT) {
+	a = s.guarded([]dargT{a})[0]
+	s.content[i] = &a
+	s.d.Ops = append(s.d.Ops, dopT{Op: "slice-set", Node: -1, S: &sliceOpT{Slice: s.id, Index: i, Items: []dargT{a}, Go: fmt.Sprintf("s_%d[%d] = %s", s.id, i, a.goText())}})
+}
+
+func (s *sliceSim) setNil(i int) {
+	s.content[i] = nil
+	s.d.Ops = append(s.d.Ops, dopT{Op: "slice-set", Node: -1, S: &sliceOpT{Slice: s.id, Index: i, Go: fmt.Sprintf("s_%d[%d] = nil", s.id, i)}})
+}
+
+func (s *sliceSim) push(items ...dargT) {
+	items = s.guarded(items)
+	for i := range items {
+		s.content = append(s.content, &items[i])
+	}
+	s.d.Ops = append(s.d.Ops, dopT{Op: "slice-append", Node: -1, S: &sliceOpT{Slice: s.id, Items: append([]dargT{}, items...), Go: fmt.Sprintf("s_%d = append(s_%d, %s)", s.id, s.id, goTexts(items))}})
+}
+
+// reslice: s = s[lo:hi] with hi <= len(s) (what lies beyond the length is never looked at again)
+func (s *sliceSim) reslice(lo, hi int) {
+	s.content = append([]*dargT{}, s.content[lo:hi]...)
+	s.d.Ops = append(s.d.Ops, dopT{Op: "slice-reslice", Node: -1, S: &sliceOpT{Slice: s.id, Lo: lo, Hi: hi, Go: fmt.Sprintf("s_%d = s_%d[%d:%d]", s.id, s.id, lo, hi)}})
+}
+
+// snapshot: the contents as MultiLevelWriter(s...) receives them now; ok = no nil element and no destination twice
+func (s *sliceSim) snapshot() (args []dargT, ok bool) {
+	for _, a := range s.content {
+		if a == nil {
+			return nil, false
+		}
+		args = append(args, *a)
+	}
+	probe := &derivT{Nodes: append(append([]dnodeT{}, s.d.Nodes...), dnodeT{Args: args})}
+	seen := map[int]bool{}
+	for _, f := range probe.flatten(len(probe.Nodes)-1, nil) {
+		if seen[f.leaf] {
+			return nil, false
+		}
+		seen[f.leaf] = true
+	}
+	return args, true
+}
+
+// build: writers[new] = MultiLevelWriter(s...)
+func (s *sliceSim) build() int {
+	args, ok := s.snapshot()
+	if !ok {
+		panic("c14 derivation generator: caller slice with a nil element or a repeated destination at a build")
+	}
+	s.d.Nodes = append(s.d.Nodes, dnodeT{Args: args, Slice: s.id})
+	n := len(s.d.Nodes) - 1
+	s.d.Ops = append(s.d.Ops, dopT{Op: "build", Node: n})
+	return n
+}
+
+// buildAs: the build step of the already described writer `node` (whose args are the slice's contents now)
+func (s *sliceSim) buildAs(node int) {
+	args, ok := s.snapshot()
+	if !ok || len(args) != len(s.d.Nodes[node].Args) {
+		panic("c14 derivation generator: the caller slice does not hold the arguments of the writer at its build")
+	}
+	s.d.Nodes[node].Args = args
+	s.d.Nodes[node].Slice = s.id
+	s.d.Ops = append(s.d.Ops, dopT{Op: "build", Node: node})
+}
+
+func (d *derivT) newLeafArg(salt int) dargT {
+	d.Leaves = append(d.Leaves, derivLeaf(len(d.Leaves)+salt))
+	return dargT{Node: -1, Leaf: len(d.Leaves) - 1, Wraps: []wrapT{}}
+}
+
+// sliceKinds: what the caller does with the slice it passed as MultiLevelWriter(s...), at position p of a slice of
+// n elements.
+var sliceKinds = []string{
+	"tenants",         // s[p] = next tenant's destination; build; three times: three writers out of one backing array
+	"overwrite-after", // build; s[p] = a destination no writer was built from
+	"nil-after",       // build; s[p] = nil
+	"truncate-append", // build; s = append(s[:p], trap): overwrites element p of the backing array
+	"refill",          // build; s = s[:0]; append n other destinations; build the second writer
+	"append-spare",    // slice with spare capacity: build from s; s = append(s, x); build; s[p] = trap
+	"prefix-suffix",   // one backing array, two writers: MultiLevelWriter(s[:p+1]...) then the rest moved to the front
+	"swap-in-writer",  // build; s[p] = an earlier writer with destinations of its own; build again
+	"extend-self",     // w = build from s; s[p] = w, the other elements replaced by new destinations; build the extended writer from s
+}
+
+// sliceGrid: slices of 1..4 destinations x every position x every kind.  Every writer is logged through after the
+// last statement on the slice (variant 0/1: oldest / newest writer first), in variant 2 also right after its build.
+func sliceGrid() []*derivT {
+	var out []*derivT
+	idx := 0
+	for n := 1; n <= 4; n++ {
+		for p := 0; p < n; p++ {
+			for _, kind := range sliceKinds {
+				idx++
+				d := &derivT{Handler: idx%4 != 0}
+				variant := idx % 3
+				var built []int
+				build := func(s *sliceSim) int {
+					w := s.build()
+					built = append(built, w)
+					if variant == 2 {
+						d.Ops = append(d.Ops, d.logOpWide(w, idx+w))
+					}
+					return w
+				}
+				var items []dargT
+				for i := 0; i < n; i++ {
+					items = append(items, d.newLeafArg(idx))
+				}
+				switch kind {
+				case "tenants":
+					s := d.newSlice(n, items...)
+					build(s)
+					for t := 0; t < 2; t++ {
+						s.set(p, d.newLeafArg(idx))
+						build(s)
+					}
+				case "overwrite-after":
+					s := d.newSlice(n, items...)
+					build(s)
+					s.set(p, d.newLeafArg(idx))
+				case "nil-after":
+					s := d.newSlice(n, items...)
+					build(s)
+					s.setNil(p)
+				case "truncate-append":
+					s := d.newSlice(n, items...)
+					build(s)
+					s.reslice(0, p)
+					s.push(d.newLeafArg(idx))
+				case "refill":
+					s := d.newSlice(n, items...)
+					build(s)
+					s.reslice(0, 0)
+					for i := 0; i < n; i++ {
+						s.push(d.newLeafArg(idx))
+					}
+					build(s)
+					s.reslice(0, p)
+				case "append-spare":
+					s := d.newSlice(n+2, items...)
+					build(s)
+					s.push(d.newLeafArg(idx))
+					build(s)
+					s.set(p, d.newLeafArg(idx))
+					s.push(d.newLeafArg(idx))
+					build(s)
+				case "prefix-suffix":
+					s := d.newSlice(n, items...)
+					s.reslice(0, p+1)
+					build(s)
+					// the next writer reuses the front of the array for other destinations
+					s.reslice(0, 0)
+					for i := 0; i <= p; i++ {
+						s.push(d.newLeafArg(idx))
+					}
+					build(s)
+				case "extend-self":
+					s := d.newSlice(n, items...)
+					w := build(s)
+					for i := 0; i < n; i++ {
+						if i != p {
+							s.set(i, d.newLeafArg(idx))
+						}
+					}
+					s.set(p, dargT{Node: w, Wraps: []wrapT{}})
+					build(s)
+				case "swap-in-writer":
+					// an earlier writer with two destinations of its own, built the ordinary way
+					d.Nodes = append(d.Nodes, dnodeT{Args: []dargT{d.newLeafArg(idx), d.newLeafArg(idx)}})
+					d.Ops = append(d.Ops, dopT{Op: "build", Node: 0})
+					built = append(built, 0)
+					s := d.newSlice(n, items...)
+					build(s)
+					s.set(p, dargT{Node: 0, Wraps: []wrapT{}})
+					build(s)
+					s.set(p, d.newLeafArg(idx))
+				}
+				for i := range built {
+					j := built[i]
+					if variant == 1 {
+						j = built[len(built)-1-i]
+					}
+					d.Ops = append(d.Ops, d.logOpWide(j, idx+3*j+1))
+				}
+				out = append(out, d)
+			}
+		}
+	}
+	return out
+}
+
+// logOpWide: logOp whose outcome rows may be shorter than the final number of destinations (destinations added
+// later answer ok); the failing destination is one of the writer's own, so that containment is exercised.
+func (d *derivT) logOpWide(node, salt int) dopT {
+	op := d.logOp(node, salt)
+	_, mine := d.flatCfg(node)
+	if len(mine) > 0 {
+		row := okRow(len(d.Leaves))
+		g := mine[salt%len(mine)]
+		if salt%3 == 0 {
+			row[g] = outT{Kind: "short", N: 2}
+		} else if salt%3 == 1 {
+			row[g] = outT{Kind: "err", E: 1 + salt%200}
+		}
+		op.Om[0] = row
+	}
+	return op
+}
+
+// viaCallerSlices rewrites the history of a derivation so that every writer is built from one of two slice
+// variables of the caller, which the caller refills for every build (in place where the lengths allow, by
+// truncate-and-append otherwise) and damages after the last build (elements overwritten by destinations no writer
+// was built from, or by nil; truncated and appended).
+func viaCallerSlices(d *derivT, r *Rng) *derivT {
+	old := d.Ops
+	d.Ops = nil
+	trap := func() dargT {
+		lf := destT{Leaf: "level", Wraps: []wrapT{}}
+		if r.Chance(40) {
+			lf.Leaf = "plain"
+		}
+		d.Leaves = append(d.Leaves, lf)
+		return dargT{Node: -1, Leaf: len(d.Leaves) - 1, Wraps: []wrapT{}}
+	}
+	var vars [2]*sliceSim
+	damage := func(s *sliceSim) {
+		if s == nil || len(s.content) == 0 {
+			return
+		}
+		i := r.Intn(len(s.content))
+		switch r.Intn(4) {
+		case 0:
+			s.set(i, trap())
+		case 1:
+			s.setNil(i)
+		case 2:
+			s.reslice(0, i)
+			s.push(trap())
+		default:
+			for k := range s.content {
+				s.set(k, trap())
+			}
+		}
+	}
+	for _, op := range old {
+		if op.Op != "build" {
+			d.Ops = append(d.Ops, op)
+			continue
+		}
+		args := d.Nodes[op.Node].Args
+		v := r.Intn(2)
+		s := vars[v]
+		switch {
+		case s == nil:
+			vars[v] = d.newSlice(len(args)+r.Intn(3), args...)
+			s = vars[v]
+		case r.Chance(50) || len(s.content) < len(args):
+			s.reslice(0, 0)
+			s.push(args...)
+		default:
+			for i, a := range args {
+				s.set(i, a)
+			}
+			s.reslice(0, len(args))
+		}
+		s.buildAs(op.Node)
+		if r.Chance(30) {
+			damage(s)
+		}
+	}
+	// the tail of the old history logs through every writer; damage both variables before it
+	last := 0
+	for i, op := range d.Ops {
+		if op.Op != "log" {
+			last = i
+		}
+	}
+	tail := append([]dopT{}, d.Ops[last+1:]...)
+	d.Ops = d.Ops[:last+1]
+	damage(vars[0])
+	damage(vars[1])
+	d.Ops = append(d.Ops, tail...)
+	return d
 }
